@@ -635,6 +635,10 @@ BODIES = [
     ("RePair_compareRule", "RePair/RePair.cpp", "RePair::expandRuleAndCompareString", 0),
     ("RePair_expandRule", "RePair/RePair.cpp", "RePair::expandRule", 0),
     ("RPDAC_locatePrefix", "StringDictionaryRPDAC.cpp", "StringDictionaryRPDAC::locatePrefix", 0),
+    ("RPDAC_extractPrefix", "StringDictionaryRPDAC.cpp", "StringDictionaryRPDAC::extractPrefix", 0),
+    ("RPDAC_extractTable", "StringDictionaryRPDAC.cpp", "StringDictionaryRPDAC::extractTable", 0),
+    ("RPDACIter_ctor", "iterators/IteratorDictStringRPDAC.h", "IteratorDictStringRPDAC", 0),
+    ("RPDACIter_next", "iterators/IteratorDictStringRPDAC.h", "next", 0),
     ("RePair_comparePrefixDAC", "RePair/RePair.cpp", "RePair::extractPrefixAndCompareDAC", 0),
     ("RePair_comparePrefixRule", "RePair/RePair.cpp", "RePair::expandRuleAndComparePrefixDAC", 0),
     ("PFC_locate", "StringDictionaryPFC.cpp", "StringDictionaryPFC::locate", 0),
